@@ -222,4 +222,10 @@ def decode (t : Ty) (s : List Nat) (cur : Val) : Except Exc Val :=
     | .error e => .error e
     | .ok (v, _) => .ok v
 
+/-- the result is `.ok v` (structural test, for witness theorems closed by evaluation) -/
+def okIs (r : Except Exc Val) (v : Val) : Bool :=
+  match r with
+  | .ok w => Val.eqb w v
+  | .error _ => false
+
 end Bp.PyRt
